@@ -146,12 +146,12 @@ Example ex_wf_agram : wf_agram KOriginal ex_ag.
 Proof. unfold wf_agram. repeat split; ag_tac. Qed.
 
 Example ex_roundtrip_true :
-  run_case true true true KOriginal (print ex_lay ex_ag)
-  = Done (TResult (ast_of true true ex_lay ex_ag) [] (warnings_of true true ex_lay ex_ag)).
+  run_case true true true true KOriginal (print ex_lay ex_ag)
+  = Done (TResult (ast_of true true ex_lay ex_ag) [] (warnings_of true true true ex_lay ex_ag)).
 Proof. vm_compute. reflexivity. Qed.
 Example ex_roundtrip_false :
-  run_case true false true KOriginal (print ex_lay ex_ag)
-  = Done (TResult (ast_of false true ex_lay ex_ag) [] (warnings_of false true ex_lay ex_ag)).
+  run_case true false true true KOriginal (print ex_lay ex_ag)
+  = Done (TResult (ast_of false true ex_lay ex_ag) [] (warnings_of false true true ex_lay ex_ag)).
 Proof. vm_compute. reflexivity. Qed.
 
 (* ======================================================================== *)
@@ -204,12 +204,12 @@ Example gx_wf_agram : wf_agram KGrmtools gx_ag.
 Proof. unfold wf_agram. repeat split; ag_tac. Qed.
 
 Example gx_roundtrip_true :
-  run_case true true true KGrmtools (print gx_lay gx_ag)
-  = Done (TResult (ast_of true true gx_lay gx_ag) [] (warnings_of true true gx_lay gx_ag)).
+  run_case true true true true KGrmtools (print gx_lay gx_ag)
+  = Done (TResult (ast_of true true gx_lay gx_ag) [] (warnings_of true true true gx_lay gx_ag)).
 Proof. vm_compute. reflexivity. Qed.
 Example gx_roundtrip_false :
-  run_case true false true KGrmtools (print gx_lay gx_ag)
-  = Done (TResult (ast_of false true gx_lay gx_ag) [] (warnings_of false true gx_lay gx_ag)).
+  run_case true false true true KGrmtools (print gx_lay gx_ag)
+  = Done (TResult (ast_of false true gx_lay gx_ag) [] (warnings_of false true true gx_lay gx_ag)).
 Proof. vm_compute. reflexivity. Qed.
 
 (* the action types arrive in the AST *)
@@ -264,12 +264,12 @@ Example eco_wf_agram : wf_agram KEco eco_ag.
 Proof. unfold wf_agram. repeat split; ag_tac. Qed.
 
 Example eco_roundtrip_true :
-  run_case true true true KEco (print eco_lay eco_ag)
-  = Done (TResult (ast_of true true eco_lay eco_ag) [] (warnings_of true true eco_lay eco_ag)).
+  run_case true true true true KEco (print eco_lay eco_ag)
+  = Done (TResult (ast_of true true eco_lay eco_ag) [] (warnings_of true true true eco_lay eco_ag)).
 Proof. vm_compute. reflexivity. Qed.
 Example eco_roundtrip_false :
-  run_case true false true KEco (print eco_lay eco_ag)
-  = Done (TResult (ast_of false true eco_lay eco_ag) [] (warnings_of false true eco_lay eco_ag)).
+  run_case true false true true KEco (print eco_lay eco_ag)
+  = Done (TResult (ast_of false true eco_lay eco_ag) [] (warnings_of false true true eco_lay eco_ag)).
 Proof. vm_compute. reflexivity. Qed.
 
 (* ======================================================================== *)
@@ -360,8 +360,8 @@ Definition rule_type_conflict_refuted_stmt : Prop :=
     forall fa fp, exists r1 r2 A,
       In r1 (ag_rules ag) /\ In r2 (ag_rules ag) /\ ar_name r1 = ar_name r2 /\ ar_type r1 <> ar_type r2 /\
       (* accepted: no error; the warnings are those of the AST: none *)
-      run_case true fa fp KGrmtools (print l ag) = Done (TResult A [] (warnings A)) /\
-      warnings A = Done [] /\
+      run_case true fa fp true KGrmtools (print l ag) = Done (TResult A [] (warnings true A)) /\
+      warnings true A = Done [] /\
       (* the rule has the first block's type, not the second's *)
       (exists r, In r (a_rules A) /\ r_name r = ar_name r2 /\ r_actiont r = ar_type r1 /\ r_actiont r <> ar_type r2).
 
@@ -407,8 +407,8 @@ Definition parse_param_twice_refuted_stmt : Prop :=
   forall k, exists l ag, wf_layout l ag /\ wf_agram_but_pp k ag /\
     forall fa fp, exists n1 t1 n2 t2 A,
       ag_decls ag = [DParseParam n1 t1; DParseParam n2 t2] /\ (n1, t1) <> (n2, t2) /\
-      run_case true fa fp k (print l ag) = Done (TResult A [] (warnings A)) /\
-      warnings A = Done [] /\
+      run_case true fa fp true k (print l ag) = Done (TResult A [] (warnings true A)) /\
+      warnings true A = Done [] /\
       a_parse_param A = Some (n2, t2).
 
 Lemma parse_param_twice_refuted : parse_param_twice_refuted_stmt.
@@ -440,11 +440,11 @@ Definition vc_src2 : str := s "%parse-param p : u64 /* why */" ++ nl ++ s "%%" +
 Definition vc_src3 : str := s "%%" ++ nl ++ s "A -> u64 /* why */ : ;".
 
 Definition value_comment_refuted_stmt : Prop :=
-  (exists A, run_case true false true KOriginal vc_src1 = Done (TResult A [] (Done [])) /\
+  (exists A, run_case true false true true KOriginal vc_src1 = Done (TResult A [] (Done [])) /\
              map r_actiont (a_rules A) = [Some (s "u64 // the type")]) /\
-  (exists A, run_case true false true KOriginal vc_src2 = Done (TResult A [] (Done [])) /\
+  (exists A, run_case true false true true KOriginal vc_src2 = Done (TResult A [] (Done [])) /\
              a_parse_param A = Some (s "p", s "u64 /* why */")) /\
-  (exists A, run_case true false true KGrmtools vc_src3 = Done (TResult A [] (Done [])) /\
+  (exists A, run_case true false true true KGrmtools vc_src3 = Done (TResult A [] (Done [])) /\
              map r_actiont (a_rules A) = [Some (s "u64 /* why */")]).
 
 Lemma value_comment_refuted : value_comment_refuted_stmt.
